@@ -18,7 +18,7 @@ import ast
 
 import z3
 
-from ..core import PKG, Ob, PROVED, REFUTED, FAULT, try_replay
+from ..core import seed, PKG, Ob, PROVED, REFUTED, FAULT, try_replay
 from ..pyvc import (Exec, Ctx, Obj, Opt, NONE, ExcVal, Builtin, TypeRef, Seq, GenError, LoopSpec, Closure, verify_function, discharge)
 from ..contracts import frontend as FE
 from ..contracts import model as M
@@ -494,6 +494,15 @@ def obligations():
 
 
 def run(report):
+    from ..pyvc import GenError as _GenError
+    from ..contracts import refimpl as _refimpl
+    try:
+        _run(report)
+    except (_GenError, NotImplementedError, KeyError, AttributeError, TypeError) as e:
+        _refimpl.generation_fallback(report, 'collect_quantity', UNIT, f"{type(e).__name__}: {e}", seed())
+
+
+def _run(report):
     execs, obs, ndispatch = obligations()
     report.extend(obs)
     src = PKG / "core/dimensions/collect_quantity.py"
